@@ -52,6 +52,17 @@ theorem c05_no_panic_executeFrame (bs : Bytes) : ∀ p, executeFrameEmpty bs ≠
 theorem c05_no_panic_processFrame (bs : Bytes) : ∀ p, natsServerProcessFrame bs ≠ .panic p :=
   natsServerProcessFrame_no_panic bs
 
+/-- HTTP server request path (`NewFrugalHandlerFunc`): never panics, always answers with a status. -/
+theorem c05_no_panic_http (bs : Bytes) : ∀ p, httpHandle bs ≠ .panic p := by
+  intro p
+  unfold httpHandle
+  split
+  · intro h; cases h
+  · split
+    · intro h; cases h
+    · intro h; cases h
+    · rename_i q hq; exact absurd hq (readRequestHeaderClass_no_panic _ q)
+
 /-- Every outcome of every modelled receiver is `ok` or an error return. -/
 theorem c05_handled_or_rejected (bs : Bytes) :
     (headersFromFrame bs).isPanic = false ∧ (unmarshalStream bs).isPanic = false ∧
